@@ -28,7 +28,7 @@ type Env struct {
 	inOld    bool
 	result   *SVal
 	callSite bool
-	callArgs []*SVal // at-call clauses: the arguments of the call
+	callArgs []*SVal         // at-call clauses: the arguments of the call
 	atInstr  ssa.Instruction // at-call clauses: the call instruction (locals are resolved as of this point)
 }
 
@@ -259,6 +259,17 @@ func atCallPositions(root ast.Node, callee string) []token.Pos {
 						out = append(out, y.End())
 					}
 				}
+			}
+			if strings.HasPrefix(callee, "store:") {
+				for _, l := range y.Lhs {
+					if se, ok := l.(*ast.SelectorExpr); ok && se.Sel.Name == strings.TrimPrefix(callee, "store:") {
+						out = append(out, y.Pos())
+					}
+				}
+			}
+		case *ast.ReturnStmt:
+			if callee == "return" {
+				out = append(out, y.Pos())
 			}
 		case *ast.CallExpr:
 			switch f := y.Fun.(type) {
@@ -801,6 +812,31 @@ func (env *Env) localAt(o *types.Var, at ssa.Instruction) *SVal {
 	if best == nil {
 		return nil
 	}
+	if k, isConst := best.X.(*ssa.Const); isConst && k.IsNil() && best.Expr.Pos() == o.Pos() {
+		// go/ssa records "x is nil" at the declaration x := T{...} of a map or slice built by a composite
+		// literal, before the value is made; the value follows immediately (the DebugRef of the literal)
+		b := best.Block()
+		for i, in := range b.Instrs {
+			if in != ssa.Instruction(best) {
+				continue
+			}
+			for _, nx := range b.Instrs[i+1:] {
+				if b == ab && atIdx >= 0 {
+					if idx := indexOfInstr(b, nx); idx >= atIdx {
+						break
+					}
+				}
+				if d2, ok := nx.(*ssa.DebugRef); ok {
+					if cl, isLit := d2.Expr.(*ast.CompositeLit); isLit && cl.Pos() > best.Expr.Pos() && types.Identical(d2.X.Type(), o.Type()) {
+						if _, have := fr.vals[d2.X]; have {
+							return e.val(fr, d2.X)
+						}
+					}
+					break
+				}
+			}
+		}
+	}
 	if _, ok := fr.vals[best.X]; !ok {
 		if _, isConst := best.X.(*ssa.Const); !isConst {
 			return nil
@@ -896,6 +932,26 @@ func (env *Env) addr(x ast.Expr) *Addr {
 			sp := e.w.SSAPkgs[o.Pkg().Path()]
 			if g, ok := sp.Members[o.Name()].(*ssa.Global); ok {
 				return e.globalAddr(g)
+			}
+		}
+		if o, ok := env.info.Uses[n].(*types.Var); ok && env.fr != nil {
+			// a local variable that lives in memory (its address is taken): the cell go/ssa allocated for it
+			for _, b := range env.fr.fn.Blocks {
+				for _, in := range b.Instrs {
+					d, ok := in.(*ssa.DebugRef)
+					if !ok || !d.IsAddr {
+						continue
+					}
+					id, ok := d.Expr.(*ast.Ident)
+					if !ok {
+						continue
+					}
+					if p := e.w.Pkgs[env.fr.fn.Pkg.Pkg.Path()]; p != nil && p.TypesInfo.ObjectOf(id) == o {
+						if v, ok := env.fr.vals[d.X]; ok {
+							return e.addrOf(v)
+						}
+					}
+				}
 			}
 		}
 	case *ast.SelectorExpr:
@@ -1361,4 +1417,13 @@ func patternSafe(t *Term) bool {
 		}
 	}
 	return true
+}
+
+func indexOfInstr(b *ssa.BasicBlock, in ssa.Instruction) int {
+	for i, x := range b.Instrs {
+		if x == in {
+			return i
+		}
+	}
+	return -1
 }
